@@ -7,6 +7,7 @@ import (
 	"bytes"
 	"encoding/json"
 	"fmt"
+	"math"
 	"sync"
 
 	"github.com/jrhy/mast"
@@ -131,6 +132,12 @@ func intPool(r *fw.Rng, bf uint, n int, signed bool, span int) []int64 {
 	if r.Chance(1, 3) {
 		seen[0] = true
 		out = append(out, 0)
+	}
+	if signed && r.Chance(1, 5) { // extremes: differences overflow, layers are very high
+		for _, v := range []int64{math.MaxInt64, math.MinInt64, math.MaxInt64 - 1, math.MinInt64 + 1}[:r.Range(1, 4)] {
+			seen[v] = true
+			out = append(out, v)
+		}
 	}
 	tries := 0
 	for len(out) < n && tries < n*50 {
